@@ -29,6 +29,6 @@ for c in "$@"; do
   OUT=$(VERIF_REPO=$DIR ./check $c 2>&1); RC=$?
   echo "check $c rc=$RC :: $(echo "$OUT" | grep -E 'VIOLATION|^OK|INCONCLUSIVE' | head -2 | tr '\n' ' ' | cut -c1-250)"
   echo "$OUT" | grep -v "draw" | grep -E "failed after|panicked" | head -2 | cut -c1-400
-  rm -rf /verif/replays/$c
+  rm -rf /verif/.run/alt/replays/$c
 done
 rm -rf $DIR /tmp/$NAME.patch
